@@ -657,7 +657,7 @@ pub fn check_history(sc: &E1Scenario, calls: &[Call], rep: &mut RunReport) {
                 let got = split_set(c.resp.result.as_deref().unwrap_or(""));
                 if got != expect {
                     rep.violate(
-                        &["C19", "C20"],
+                        &["C19", "C20", "C13"],
                         "C19.3-required-set",
                         format!("call {i}: task {} asks for {:?}, reference says {:?} (supplied {:?})", c.id, got, expect, m.supplied.keys().collect::<Vec<_>>()),
                     );
@@ -686,6 +686,28 @@ pub fn check_history(sc: &E1Scenario, calls: &[Call], rep: &mut RunReport) {
                     (Err(_), 0) => rep.probe("emit_error_agrees"),
                     (Ok(_), _) => rep.violate(&["C13"], "C13.loader-emit-fails", format!("call {i}: emit_js failed ({:?}) where the library resolves and prints", c.resp.result)),
                     (Err(e), _) => rep.violate(&["C13"], "C13.loader-emit-succeeds", format!("call {i}: emit_js succeeded where the library path fails: {e}")),
+                }
+            }
+        }
+        // --- C13 end to end through the host protocol: when every host file exists and nothing
+        // was faulted (c13 class, L1), the module the host finally emits is the library print of
+        // the document resolved over ALL host files - the loader must have asked for every file
+        if let (Op::Emit { .. }, Some(m), true, true) = (&c.op, &live_slot, sc.variant == "c13", sc.l1.is_some()) {
+            let all: BTreeMap<String, String> = sc.files.iter().filter(|f| f.exists).map(|f| (f.path.clone(), f.versions[0].text.clone())).collect();
+            if sc.files.iter().all(|f| f.exists && f.versions.len() == 1) {
+                match (lib_emit(&m.root, &all, config.as_deref()), c.resp.ret) {
+                    (Ok(js), 1) => {
+                        if Some(&js) != c.resp.result.as_ref() {
+                            rep.violate(&["C13"], "C13.loader-protocol-result-differs", format!("call {i}: the module emitted after the host protocol differs from the resolution over all host files"));
+                        }
+                        rep.probe("protocol_end_to_end_compared");
+                    }
+                    (Ok(_), _) => rep.violate(
+                        &["C13", "C20"],
+                        "C13.loader-protocol-misses-file",
+                        format!("call {i}: every import of {} resolves on the host, but after the host protocol emit_js fails: {:?} (supplied {:?})", m.root, c.resp.result, m.supplied.keys().collect::<Vec<_>>()),
+                    ),
+                    _ => {}
                 }
             }
         }
@@ -799,7 +821,9 @@ pub fn check_projections(sc: &E1Scenario, calls: &[Call], rep: &mut RunReport) {
 fn host_files_from_ops(ops: &[crate::model::OpFileModel], rng: &mut Rng, versions: bool) -> Vec<HostFile> {
     ops.iter()
         .map(|f| {
-            let mut vs = vec![FileVersion { text: wgen::render_op_file(f), imports: Some(f.imports.iter().map(|i| i.spelling.clone()).collect()) }];
+            // some files start with a byte order mark (Node's readFile(.., "utf-8") keeps it)
+            let bom = if rng.chance(1, 8) { "\u{feff}" } else { "" };
+            let mut vs = vec![FileVersion { text: format!("{bom}{}", wgen::render_op_file(f)), imports: Some(f.imports.iter().map(|i| i.spelling.clone()).collect()) }];
             if versions && rng.chance(1, 3) {
                 // a later version: one import line dropped or the style changed
                 let mut g = f.clone();
@@ -840,6 +864,7 @@ pub fn gen_scenario(run_seed: u64, variant: &str, tier: Tier) -> E1Scenario {
         plain: rw.chance(1, 3),
         closed_imports: rw.chance(1, 2),
         cover_fragments: false,
+        name_collisions: variant != "c08" && rw.chance(1, 3),
         dirs: vec!["/proj/src".into(), "/proj/src/a".into(), "/proj/src/a/b".into(), "/proj/lib".into()],
     };
     let ops_model = wgen::gen_ops(&mut rw, &schema, &o);
@@ -1174,7 +1199,7 @@ pub fn miri_smoke(from: u64, to: u64) -> usize {
     let docs = [
         ("/p/a.graphql", "#import F from \"./b.graphql\"\nquery Q { a ...F }\n"),
         ("/p/b.graphql", "#import * from \"./c.graphql\"\nfragment F on T { b ...G }\n"),
-        ("/p/c.graphql", "fragment G on T { c }\n"),
+        ("/p/c.graphql", "\u{feff}fragment G on T { c }\n"),
     ];
     let mut bad = 0;
     for seed in from..to {
